@@ -34,7 +34,6 @@ import (
 	"sync"
 	"time"
 
-	"github.com/lugu/qiloop/bus"
 	"github.com/lugu/qiloop/examples/space"
 	"github.com/lugu/qiloop/vhook"
 	"verif/harness/hlib"
@@ -324,7 +323,12 @@ func c14Churn(args []string) {
 	res := &hlib.Result{}
 	shapes := map[string]bool{}
 	known := 0
+	ran, bad := 0, 0
 	for si, sc := range scheds {
+		if bad >= 60 {
+			break // enough evidence; failing schedules may each cost a bounded wait
+		}
+		ran++
 		shape := fmt.Sprint(sc.Init) + " "
 		for _, st := range sc.Steps {
 			shape += st.A + "." + st.St[:2] + " "
@@ -334,11 +338,13 @@ func c14Churn(args []string) {
 		for _, f := range fails {
 			if f[0] == knownSendErr {
 				known++
+			} else {
+				bad++
 			}
 			res.Fail(f[0], f[1], map[string]interface{}{"schedule": sc.Steps, "init": sc.Init, "index": si, "source": "churn"})
 		}
 	}
-	res.Evaluations = len(scheds)
+	res.Evaluations = ran
 	res.Distinct = len(shapes)
 	res.SetExtra("c14_churn_send_error_results", known)
 	res.SetExtra("c14_churn_other_order", k.other)
@@ -387,7 +393,7 @@ func (k *churnRunner) run(sc *cschedJ, tl *traceLog) (fails [][2]string) {
 	}
 	done := map[string]chan error{}
 	parked := map[string]*carrival{} // emitter parked before a send
-	sent := map[string][]string{}     // subscribers the emission in progress has sent to
+	sent := map[string][]string{}    // subscribers the emission in progress has sent to
 	emOver := map[string]bool{}
 	anyClosed, differs := false, false
 	g.install()
@@ -602,6 +608,12 @@ func (k *churnRunner) run(sc *cschedJ, tl *traceLog) (fails [][2]string) {
 				tl.put(map[string]interface{}{"k": "close", "s": st.S})
 			}
 			uid := s.uid
+			// forget the removal notices of earlier unregistrations (this subscriber may have
+			// left and come back with the same user id): the one awaited is the server's
+			// reaction to the close
+			for len(k.removed) > 0 {
+				<-k.removed
+			}
 			s.tap.close()
 			s.drop()
 			s.reg = false
@@ -695,8 +707,6 @@ func has(l []string, x string) bool {
 	}
 	return false
 }
-
-var _ = bus.NewProxy
 
 func init() {
 	hlib.Register("c14-churn", c14Churn)
